@@ -42,8 +42,17 @@ pub fn parse_input(row: &Value, variant: usize) -> String {
   );
   if frac > 0 {
     st.push('.');
-    // all nines: truncation, not rounding, must be applied
-    st.push_str(&"9".repeat(frac));
+    // every digit pattern denotes the same truncated instant: all nines (truncation, not rounding), leading zeros then a
+    // digit (sub-milli / sub-micro fractions), all zeros, a mixed pattern
+    match (variant / 2) % 4 {
+      0 => st.push_str(&"9".repeat(frac)),
+      1 => {
+        st.push_str(&"0".repeat(frac - 1));
+        st.push('5');
+      }
+      2 => st.push_str(&"0".repeat(frac)),
+      _ => st.push_str(&"4096381725"[..frac]),
+    }
   }
   st.push_str(&offset_str(i(&row["off"]), variant));
   st
@@ -189,8 +198,15 @@ fn replay_chunk(cases: &[Value], rep: &mut Report) {
     note_case(&case["row"]);
     let row = &case["row"];
     let kind = s(&row["kind"]).to_string();
-    let variants = if kind == "parse" && i(&row["off"]) == 0 { 2 } else { 1 };
-    for variant in 0..variants {
+    // variant = 2 * fraction pattern + spelling of a zero offset
+    let variants: Vec<usize> = if kind == "parse" {
+      let offs: &[usize] = if i(&row["off"]) == 0 { &[0, 1] } else { &[0] };
+      let pats: &[usize] = if i(&row["frac"]) > 0 { &[0, 1, 2, 3] } else { &[0] };
+      pats.iter().flat_map(|p| offs.iter().map(move |o| 2 * p + o)).collect()
+    } else {
+      vec![0]
+    };
+    for variant in variants {
       rep.eval();
       let out = guarded(|| execute(row, variant));
       let input = if kind == "parse" { json!(parse_input(row, variant)) } else { Value::Null };
